@@ -104,7 +104,12 @@ class Dump:
             st = []
             for key, t in meta['st']:
                 v = getattr(leaf, key)
-                st.append(','.join(str(int(x)) for x in v) if t == 'ilist' else str(int(v)))
+                try:
+                    st.append(','.join(str(int(x)) for x in v) if t == 'ilist' else str(int(v)))
+                except (TypeError, ValueError):
+                    # a state attribute that is not an integer (list): the generated model of this class cannot represent it
+                    # (e.g. the source gained an attribute initialised with None): no model leg for this design
+                    raise NotDumpable(f'{type(leaf).__name__}.{key} holds {v!r}')
             wi = lambda w: '0' if w is None else str(self.wid[id(w)])
             ins = ','.join(wi(getattr(leaf, n)) for n in meta['ins'])
             inls = ';'.join(','.join(wi(w) for w in getattr(leaf, n)) for n in meta['inls'])
